@@ -1,13 +1,68 @@
 (* C06 - Every counted line lands in exactly one platform set; all reports agree.
    Statements only. *)
-From Coq Require Import ZArith String Bool Arith List.
+From Coq Require Import ZArith String Bool Arith Permutation Sorted List.
 From CBI Require Import Lib.Data Lib.Res Model.C06 Spec.C06 Proofs.C06.
 Import ListNotations.
 Local Open Scope Z_scope.
 
 (* The values of the setmap add up to the SLOC of the code base: the sum of
    num_lines over all nodes of all files that are not symlinks to another
-   member.  No hypothesis. *)
-Theorem C06_setmap_total : forall files, sm_total (get_setmap files) = sloc files.
-Proof. exact setmap_total. Qed.
+   member.  More generally every figure read off the setmap (sum of the values
+   whose key satisfies P) is that sum restricted to the nodes whose platform set
+   satisfies P.  No hypothesis. *)
+Theorem C06_setmap_total : forall files,
+  sm_total (get_setmap files) = sloc files /\
+  forall P, sum_if P (get_setmap files) = spec_sum P files.
+Proof. intros files. split; [apply setmap_total | intros P; apply setmap_sums]. Qed.
 Print Assumptions C06_setmap_total.
+
+(* The summary table.  get_setmap is exactly the table of buckets (one entry per
+   platform set that occurs on a node of a counted file, in first-occurrence
+   order, holding the sum of num_lines over those nodes).  Whenever
+   report.summary prints (it raises only if the table is non-empty and all counts
+   are 0), its rows are a permutation of the buckets, no platform set occurs
+   twice, each row carries count = its bucket and the denominator = SLOC (the
+   printed percentage is count / denominator * 100), rows are ordered by
+   non-decreasing size of the platform set, and "Total SLOC" is the SLOC. *)
+Theorem C06_rows : forall files,
+  get_setmap files = spec_buckets files /\
+  (forall rows total, summary (get_setmap files) = Ok (rows, total) ->
+     total = sloc files /\
+     Permutation (map (fun r => (skey r, scount r)) rows) (spec_buckets files) /\
+     Forall (fun r => scount r = bucket (skey r) files /\ stotal r = sloc files) rows /\
+     NoDup (map skey rows) /\
+     StronglySorted (fun a b => (List.length (skey a) <= List.length (skey b))%nat) rows) /\
+  (forall e, summary (get_setmap files) = Err e -> sloc files = 0 /\ spec_keys files <> []).
+Proof.
+  intros files. split; [apply get_setmap_exact|]. split; [intros rows total; apply summary_rows | intros e; apply summary_err].
+Qed.
+Print Assumptions C06_rows.
+
+(* Partition.  For a well-formed analysis result (every node counts exactly the
+   lines it lists, no physical line of a file is listed twice: C05's business)
+   every figure of the setmap is the NUMBER OF LINES of the counted files whose
+   node's platform set satisfies P, and every listed line of every file lies in
+   the line set of exactly one platform set. *)
+Theorem C06_partition : forall files, Forall file_ok files ->
+  (forall P, sum_if P (get_setmap files) = line_count P files) /\
+  (forall f, In f files -> forall l, In l (all_lines f) ->
+     exists k, In l (lines_with (key_eqb k) f) /\ forall k', In l (lines_with (key_eqb k') f) -> k' = k).
+Proof. exact partition. Qed.
+Print Assumptions C06_partition.
+
+(* Coverage export.  One entry per code-base file, in order, with the file's path
+   and content id; used_lines / unused_lines are exactly the listed lines whose
+   owning node has a non-empty / empty platform set, together they are a
+   duplicate-free rearrangement of the file's counted lines, and their lengths are
+   the used / unused figures of the file's own setmap (the file's row in the tree). *)
+Theorem C06_export_partition : forall files, Forall file_ok files ->
+  map epath (export files) = map fpath files /\ map eid (export files) = map fid files /\
+  Forall2 (fun f e =>
+     eused e = spec_used f /\ eunused e = spec_unused f /\
+     Permutation (eused e ++ eunused e) (all_lines f) /\ NoDup (eused e ++ eunused e) /\
+     (forall l, In l (eused e) <-> In l (all_lines f) /\ line_used f l = true) /\
+     (forall l, In l (eunused e) <-> In l (all_lines f) /\ line_used f l = false) /\
+     Z.of_nat (List.length (eused e)) = sum_if (fun k => negb (is_empty k)) (file_setmap f) /\
+     Z.of_nat (List.length (eunused e)) = sum_if is_empty (file_setmap f)) files (export files).
+Proof. exact export_partition. Qed.
+Print Assumptions C06_export_partition.
